@@ -1098,3 +1098,24 @@ def model_view(m):
     if m.get('case') == 'state':
         return 'post %s %s' % (m['coq_op'], m['coq_pre'])
     return 'true'
+
+
+def replay(ctx, data):
+    """bin/check C09 --replay file: re-runs the seeded history (or the killed workload) named in the replay file and
+    applies the same oracle; exit 1 when the violation shows again."""
+    import random
+    ctx.seed = int(data.get('seed', ctx.seed))
+    ctx.tier = data.get('tier', ctx.tier)
+    inp = data.get('input') or {}
+    ctx.log('replaying seed %d: %s' % (ctx.seed, data.get('what') or data.get('no_longer_checks')))
+    if isinstance(inp, dict) and str(inp.get('history', '')).startswith('h'):
+        h = int(inp['history'][1:])
+        quick = ctx.tier == 'quick'
+        n_steps = 30 if quick else 50
+        cases, meta = run_history(ctx, inp['history'], n_steps, ctx.subrng('history/%d' % h))
+        bad = ctx.run_cases('txn', HEADER, cases, 'check_tcase')
+        for i in bad[:5]:
+            ctx.disagreement('txn', {k: v for k, v in meta[i].items() if not k.startswith('coq_')})
+        return ctx.finish()
+    run(ctx)
+    return ctx.finish()
